@@ -204,6 +204,33 @@ theorem C06_chain_law (pp am : RBM ℝ n h) (k : ℕ) {M : ℕ} (neg : Fin M →
   rw [cdGradAm, Prog.expect_map, Prog.expect_eq_sum]
   simp only [C05.C05_batch_law]
 
+/-- **C06.1h** why the chain must start where it does: if the rows of the negative batch are distributed as the model's
+reported distribution `π` (which the data approach as training converges), the expected negative phase of CD-`k` is, for
+EVERY `k`, the exact negative phase `Σ_w π(w) ∇E(w)` of `compute_exact_gradients` (C03): the `k`-step kernel leaves `π`
+invariant (C05_invariant_k). -/
+theorem C06_chain_stationary (am d : RBM ℝ n h) (amd dd : PRBM ℝ n h a) (Z : ℝ) (k : ℕ) :
+    (∑ v, C05.rbmPi am Z v * ∑ w, (C05.rbmP am ^ k) v w * (am.effEnergyGrad1 (bvec w)).pair d
+        = ∑ w, C05.rbmPi am Z w * (am.effEnergyGrad1 (bvec w)).pair d)
+    ∧ (∑ v, C05.prbmPi amd Z v * ∑ w, (C05.prbmP amd ^ k) v w * (amd.effEnergyGrad1 (bvec w)).pair dd
+        = ∑ w, C05.prbmPi amd Z w * (amd.effEnergyGrad1 (bvec w)).pair dd) := by
+  constructor
+  · have hinv := C05.C05_invariant_k am Z k
+    simp only [Finset.mul_sum]
+    rw [Finset.sum_comm]
+    refine Finset.sum_congr rfl (fun w _ => ?_)
+    have hw := congrFun hinv w
+    simp only [Matrix.vecMul, dotProduct] at hw
+    rw [← hw, Finset.sum_mul]
+    refine Finset.sum_congr rfl (fun v _ => by ring)
+  · have hinv := C05.C05_invariant_k_purif amd Z k
+    simp only [Finset.mul_sum]
+    rw [Finset.sum_comm]
+    refine Finset.sum_congr rfl (fun w _ => ?_)
+    have hw := congrFun hinv w
+    simp only [Matrix.vecMul, dotProduct] at hw
+    rw [← hw, Finset.sum_mul]
+    refine Finset.sum_congr rfl (fun v _ => by ring)
+
 /-! ## Gap-closing round: histories (C06-2) and the learning-rate schedule (C06-4) -/
 
 /-- **C06.3c** plain SGD on the purification RBM: every parameter (incl. `U`, `d`) moves by exactly `−lr · gradient`. -/
